@@ -22,9 +22,13 @@ type c18case struct {
 	env    string // a MOCKERY_* variable exported while init runs ("" = none)
 	above  string // name of another, valid configuration file in the PARENT directory of the module ("" = none)
 	// "@fsroot": the module directory is a direct child of the file-system root (like a container WORKDIR /app)
+	fault string // "fsize0": init runs under a file-size limit of 0 (every write to a regular file fails with EFBIG, as on a full disk)
 }
 
 func (cs c18case) id() string {
+	if cs.fault != "" {
+		return fmt.Sprintf("pkg=%q state=%s target=%s fault=%s", cs.name, cs.state, cs.target, cs.fault)
+	}
 	if cs.env != "" {
 		return fmt.Sprintf("pkg=%q state=%s target=%s env=%s", cs.name, cs.state, cs.target, cs.env)
 	}
@@ -52,43 +56,49 @@ func C18(c *core.Ctx) error {
 			cases = append(cases, cs)
 		}
 	}
-	add(c18case{c18pkg, "absent", "default", "", ""})
+	add(c18case{c18pkg, "absent", "default", "", "", ""})
 	// a configuration file further up the directory tree: the file init writes into the working directory is the
 	// nearest one, so the following plain run must use it
 	for _, ab := range []string{".mockery.yaml", ".mockery.yml"} {
-		add(c18case{c18pkg, "absent", "default", "", ab})
-		add(c18case{c18pkg, "content", "default", "", ab})
+		add(c18case{c18pkg, "absent", "default", "", ab, ""})
+		add(c18case{c18pkg, "content", "default", "", ab, ""})
 	}
-	add(c18case{c18pkg, "absent", "default", "", "@fsroot"})
-	add(c18case{c18pkg, "content", "default", "", "@fsroot"})
+	add(c18case{c18pkg, "absent", "default", "", "@fsroot", ""})
+	add(c18case{c18pkg, "content", "default", "", "@fsroot", ""})
 	// the invoking shell's MOCKERY_* overrides are not "the documented defaults": the written file must not depend on them
 	for _, e := range []string{"MOCKERY_FILENAME=ci_mocks.go", "MOCKERY_RECURSIVE=true", "MOCKERY_LOG_LEVEL=debug", "MOCKERY_ALL=false", "MOCKERY_DIR=elsewhere", "MOCKERY_TEMPLATE=matryer",
 		"MOCKERY_FORMATTER=gofmt", "MOCKERY_PKGNAME=envpkg", "MOCKERY_STRUCTNAME=Env{{.InterfaceName}}", "MOCKERY_FORCE_FILE_WRITE=false", "MOCKERY_INCLUDE_INTERFACE_REGEX=Foo", "MOCKERY_REQUIRE_TEMPLATE_SCHEMA_EXISTS=false"} {
-		add(c18case{c18pkg, "absent", "default", e, ""})
-		add(c18case{c18pkg, "content", "relative", e, ""})
+		add(c18case{c18pkg, "absent", "default", e, "", ""})
+		add(c18case{c18pkg, "content", "relative", e, "", ""})
 	}
 	// --config names the target; a MOCKERY_CONFIG left in the shell (naming a file that does not exist, here) does not
 	// redirect an explicit flag
 	for _, t := range []string{"relative", "nested", "absolute"} {
-		add(c18case{c18pkg, "absent", t, "MOCKERY_CONFIG=from_env.yml", ""})
-		add(c18case{c18pkg, "content", t, "MOCKERY_CONFIG=from_env.yml", ""})
+		add(c18case{c18pkg, "absent", t, "MOCKERY_CONFIG=from_env.yml", "", ""})
+		add(c18case{c18pkg, "content", t, "MOCKERY_CONFIG=from_env.yml", "", ""})
 	}
 	for _, n := range names {
-		add(c18case{n, "absent", "default", "", ""})
+		add(c18case{n, "absent", "default", "", "", ""})
+	}
+	// a write fault while the new file is being written: init may fail (what it leaves behind then is not stated),
+	// but it may not report success unless the file it wrote passes every round-trip check below
+	for _, t := range targets {
+		add(c18case{name: c18pkg, state: "absent", target: t, fault: "fsize0"})
+		add(c18case{name: c18pkg, state: "content", target: t, fault: "fsize0"})
 	}
 	for _, s := range states {
 		for _, t := range targets {
-			add(c18case{c18pkg, s, t, "", ""})
+			add(c18case{c18pkg, s, t, "", "", ""})
 		}
 	}
 	for _, n := range names {
-		add(c18case{n, "content", "default", "", ""})
+		add(c18case{n, "content", "default", "", "", ""})
 	}
 	if !core.Quick(c.Tier) {
 		for _, n := range names {
 			for _, s := range states {
 				for _, t := range targets {
-					add(c18case{n, s, t, "", ""})
+					add(c18case{n, s, t, "", "", ""})
 				}
 			}
 		}
@@ -182,7 +192,13 @@ func C18(c *core.Ctx) error {
 		os.MkdirAll(home, 0o755)
 		defer os.RemoveAll(home)
 		initEnv = append(initEnv, "HOME="+home)
-		r := core.Run(root, core.UserEnv(initEnv...), time.Minute, "", c.Mockery, cmd...)
+		var r core.Result
+		if cs.fault == "fsize0" {
+			// mockery's own output goes to pipes, which the limit does not apply to
+			r = core.Run(root, core.UserEnv(initEnv...), time.Minute, "", "bash", append([]string{"-c", `ulimit -f 0; exec "$0" "$@"`, c.Mockery}, cmd...)...)
+		} else {
+			r = core.Run(root, core.UserEnv(initEnv...), time.Minute, "", c.Mockery, cmd...)
+		}
 		after := core.Snapshot(root)
 		if strayHome, _ := filepath.Glob(filepath.Join(home, "*.y*ml")); len(strayHome) > 0 {
 			c.Report("wrote-into-home:"+id, fmt.Sprintf("init wrote %v under $HOME; the target path was %s", strayHome, target), map[string]any{"case": id, "cmd": cmd})
@@ -216,6 +232,9 @@ func C18(c *core.Ctx) error {
 		if len(removed) > 0 || len(changed) > 0 {
 			c.Report("clobber:"+id, fmt.Sprintf("init changed existing files: removed %v changed %v", removed, changed), replay)
 			return
+		}
+		if r.Exit != 0 && cs.fault != "" {
+			return // the injected fault made init fail, and it said so
 		}
 		if r.Exit != 0 {
 			// failure (e.g. missing parent directory): nothing may have been left behind except directories
@@ -327,7 +346,7 @@ func C18(c *core.Ctx) error {
 	c.Ev.Set("exhaustive", !c.Expired() && done == len(cases))
 	c.Ev.Set("cases", len(cases))
 	c.Ev.Set("bound", map[bool]string{true: "dev<=1 from (valid path, absent, default target) over 47 package strings, 6 target states x 4 --config spellings, and every package string against an existing user file", false: "full product 47 package strings x 6 target states x 4 --config spellings"}[core.Quick(c.Tier)])
-	c.Ev.Set("rule", "each case = fresh scratch module + initial state of the target path + package string (+ one of 12 MOCKERY_* variables exported while init runs, for an absent and for an occupied target); `mockery init` from the working tree is run once; whole-tree content snapshot before/after; written file parsed as YAML, loaded with `mockery showconfig`, compared (differential) with a minimal hand-written config, and for the real package a plain `mockery` run must mock exactly all its interfaces; non-trivial = init succeeded and all round-trip checks were evaluated")
+	c.Ev.Set("rule", "each case = fresh scratch module + initial state of the target path + package string (+ one of 12 MOCKERY_* variables exported while init runs, for an absent and for an occupied target; + init run under a file-size limit of 0 so that writing the new file fails: success may only be reported for a file that round-trips); `mockery init` from the working tree is run once; whole-tree content snapshot before/after; written file parsed as YAML, loaded with `mockery showconfig`, compared (differential) with a minimal hand-written config, and for the real package a plain `mockery` run must mock exactly all its interfaces; non-trivial = init succeeded and all round-trip checks were evaluated")
 	c.Ev.Assume("strings that cannot be Go import paths are checked for no-crash, no-clobber and YAML round trip only")
 	return nil
 }
